@@ -561,9 +561,19 @@ sign<Number> sign<Number>::operator/(const sign<Number> &o) const {
   } else if (not_equal_zero() || o.not_equal_zero()) {
     return top();
   } else {
-    // Once we exclude top, bottom, zero, and non-zero
-    // signed division is like multiplication
-    return (*this) * o;
+    // Once we exclude top, bottom, zero, and non-zero the sign of a
+    // signed division is the sign of the multiplication, except that
+    // integer division truncates towards zero: the quotient of two
+    // non-zero numbers can be zero (e.g., 1/2 = 0). Thus, the result
+    // can never be strictly positive or strictly negative.
+    sign<Number> res = (*this) * o;
+    if (res.greater_than_zero()) {
+      return sign<Number>(sign_interval::GEZ);
+    } else if (res.less_than_zero()) {
+      return sign<Number>(sign_interval::LEZ);
+    } else {
+      return res;
+    }
   }
 }
 
